@@ -22,8 +22,12 @@ Go function → Lean definition
 * `types/arraytype.go` `Array.Dig` → `dig` / `digStep` (an undef key or an undef / scalar container answers undef; a hash
   is asked with `Get2`, whose `px.ToKey` raises `INVALID_MAP_KEY` for a key that holds a Deferred; an array with `At`
   for an integer key, undef when out of range or for any other key)
-* `types/deferredtype.go` `(*DeferredType).Resolve` (no parameters) → `typeText` (`types.Resolve`: a core type, else a
-  `TypeReference`); the memo field `resolved` is `RV.dty`'s second component
+* `types/deferredtype.go` `(*DeferredType).Resolve` → the `.dty` arm: without parameters `typeText` (`types.Resolve`: a core
+  type, else a `TypeReference`); with parameters `resolveValue(c, WrapValues(dt.params))` — the same walk with the EMPTY
+  scope (`v.Resolve(c, emptyMap)`) that also resolves a bare `*HashEntry` (`deep := true`; inside a Deferred's arguments
+  `(*deferred).Resolve` goes back to `ResolveDeferred`: `deep := false`) — then `ResolveWithParams` → `paramTypeText` (the
+  one-parameter wrappers Array / Optional / Type / NotUndef and Tuple, over parameters that are types: `W[Any]` prints `W`);
+  the memo field `resolved` is `RV.dty`'s third component (filled on success only)
 * `types.NewDeferred`, `NewDeferredType`, `WrapValues`, `WrapHash` → the constructors of `RV` (memo `none`)
 -/
 namespace Pcore.Immut
@@ -37,7 +41,7 @@ inductive RV where
   | hsh (es : List RV)                          -- elements are `.ent k v`
   | ent (k v : RV)
   | dfr (name : String) (args : List RV)        -- *deferred{name, arguments}
-  | dty (name : String) (memo : Option String)  -- *DeferredType{tn, params = nil, resolved}
+  | dty (name : String) (params : List RV) (memo : Option String)  -- *DeferredType{tn, params ([] = nil), resolved}
   | ty (text : String)                          -- a resolved px.Type, by its text
   deriving Repr, Inhabited
 
@@ -53,7 +57,7 @@ def RV.render : RV → String
   | .hsh es => "(h" ++ renderH es ++ ")"
   | .ent k v => "(e " ++ k.render ++ " " ++ v.render ++ ")"
   | .dfr n as => "(d x" ++ hexOf n ++ renderL as ++ ")"
-  | .dty n _ => "(dt x" ++ hexOf n ++ ")"
+  | .dty n ps _ => "(dt x" ++ hexOf n ++ renderL ps ++ ")"
   | .ty t => "(t x" ++ hexOf t ++ ")"
 def renderL : List RV → String
   | [] => ""
@@ -71,7 +75,7 @@ def RV.erase : RV → RV
   | .hsh es => .hsh (eraseL es)
   | .ent k v => .ent k.erase v.erase
   | .dfr n as => .dfr n (eraseL as)
-  | .dty n _ => .dty n none
+  | .dty n ps _ => .dty n (eraseL ps) none
   | v => v
 def eraseL : List RV → List RV
   | [] => []
@@ -87,19 +91,20 @@ def typeText (name : String) : String :=
 
 /-! ### `Array.Dig` -/
 
-inductive RErr | unknownVariable | unknownFunction | invalidKey
+inductive RErr | unknownVariable | unknownFunction | invalidKey | illegalArgument
   deriving Repr, DecidableEq
 
 def RErr.text : RErr → String
   | .unknownVariable => "reported UNKNOWN_VARIABLE"
   | .unknownFunction => "reported UNKNOWN_FUNCTION"
   | .invalidKey => "reported INVALID_MAP_KEY"
+  | .illegalArgument => "reported ILLEGAL_ARGUMENT"
 
 mutual
 /-- `px.ToKey` answers (does not raise `INVALID_MAP_KEY`): nothing deferred inside -/
 def RV.hashable : RV → Bool
   | .dfr _ _ => false
-  | .dty _ _ => false
+  | .dty _ _ _ => false
   | .arr xs => hashableL xs
   | .hsh es => hashableL es
   | .ent k v => k.hashable && v.hashable
@@ -160,49 +165,93 @@ def finish (sc : List RV) (name : String) (da : List RV) : Except RErr RV :=
     match scopeGet sc vn with
     | none => .error .unknownVariable
     | some vv => if da.isEmpty then .ok vv else dig vv da
-  | none => if name == "verif_list" then .ok (.arr da) else .error .unknownFunction
+  | none =>
+    if name == "verif_list" then .ok (.arr da)
+    else if name == "verif_first" then .ok (da.headD .undef)
+    else .error .unknownFunction
 
-/-! ### the pure layer -/
+/-! ### `ResolveWithParams` for the parameterised types of this model -/
+
+/-- the texts of the parameters when every one of them is a type -/
+def tyTexts : List RV → Option (List String)
+  | [] => some []
+  | .ty t :: xs => (tyTexts xs).map (t :: ·)
+  | _ :: _ => none
+
+def wrapperNames : List String := ["Array", "Optional", "Type", "NotUndef"]
+
+/-- `Array[T]`, `Optional[T]`, `Type[T]`, `NotUndef[T]` (with `T = Any` the parameter is not printed) and `Tuple[T1, …]` -/
+def paramTypeText (name : String) (args : List RV) : Except RErr String :=
+  match tyTexts args with
+  | none => .error .illegalArgument
+  | some ts =>
+    if wrapperNames.contains name then
+      match ts with
+      | [t] => .ok (if t == "Any" then name else name ++ "[" ++ t ++ "]")
+      | _ => .error .illegalArgument
+    else if name == "Tuple" && !ts.isEmpty then .ok ("Tuple[" ++ ", ".intercalate ts ++ "]")
+    else .error .illegalArgument
+
+/-! ### the pure layer
+
+`deep = false`: `ResolveDeferred(c, ·, scope)`; `deep = true`: `resolveValue(c, ·)` (called with the empty scope; resolves a
+bare hash entry too). -/
 
 mutual
-def resolve (sc : List RV) : RV → Except RErr RV
+def resolve (deep : Bool) (sc : List RV) : RV → Except RErr RV
   | .dfr name args =>
-    match resolveL sc args with
+    match resolveL false sc args with
     | .error e => .error e
     | .ok da => finish sc name da
-  | .dty name _ => .ok (.ty (typeText name))
+  | .dty name ps _ =>
+    if ps.isEmpty then .ok (.ty (typeText name)) else
+    match resolveL true [] ps with
+    | .error e => .error e
+    | .ok as =>
+      match paramTypeText name as with
+      | .error e => .error e
+      | .ok t => .ok (.ty t)
   | .arr xs =>
-    match resolveL sc xs with
+    match resolveL deep sc xs with
     | .error e => .error e
     | .ok ys => .ok (.arr ys)
   | .hsh es =>
-    match resolveH sc es with
+    match resolveH deep sc es with
     | .error e => .error e
     | .ok fs => .ok (.hsh fs)
+  | .ent k v =>
+    if deep then
+      match resolve deep sc k with
+      | .error e => .error e
+      | .ok k' =>
+        match resolve deep sc v with
+        | .error e => .error e
+        | .ok v' => .ok (.ent k' v')
+    else .ok (.ent k v)
   | v => .ok v
-def resolveL (sc : List RV) : List RV → Except RErr (List RV)
+def resolveL (deep : Bool) (sc : List RV) : List RV → Except RErr (List RV)
   | [] => .ok []
   | x :: xs =>
-    match resolve sc x with
+    match resolve deep sc x with
     | .error e => .error e
     | .ok y =>
-      match resolveL sc xs with
+      match resolveL deep sc xs with
       | .error e => .error e
       | .ok ys => .ok (y :: ys)
-def resolveH (sc : List RV) : List RV → Except RErr (List RV)
+def resolveH (deep : Bool) (sc : List RV) : List RV → Except RErr (List RV)
   | [] => .ok []
   | .ent k v :: es =>
-    match resolve sc k with
+    match resolve deep sc k with
     | .error e => .error e
     | .ok k' =>
-      match resolve sc v with
+      match resolve deep sc v with
       | .error e => .error e
       | .ok v' =>
-        match resolveH sc es with
+        match resolveH deep sc es with
         | .error e => .error e
         | .ok fs => .ok (.ent k' v' :: fs)
   | x :: es =>
-    match resolveH sc es with
+    match resolveH deep sc es with
     | .error e => .error e
     | .ok fs => .ok (x :: fs)
 end
@@ -240,59 +289,78 @@ def Writes.ofTable (t : List FieldWrite) : Writes where
 `resolveW W sc v = (v', answer)`: `v'` is the value as it is after the call (the same objects, fields possibly
 assigned).  A failed call (a Go panic) leaves the writes made before the panic in place. -/
 
-/-- `(*DeferredType).Resolve`: the answer and the memo afterwards -/
-def dtyResolve (W : Writes) (name : String) (memo : Option String) : Option String × String :=
+/-- a memo that answers without resolving anything: only under the lazy policy (`if dt.resolved == nil { … }`) -/
+def dtyHit (W : Writes) (memo : Option String) : Option String :=
   match W.dtyMemo with
-  | none => (memo, typeText name)
-  | some true =>
-    match memo with
-    | some t => (some t, t)                       -- `if dt.resolved == nil { … }; return dt.resolved`
-    | none => (some (typeText name), typeText name)
-  | some false => (some (typeText name), typeText name)
+  | some true => memo
+  | _ => none
+
+/-- the memo after a successful resolution to `t` -/
+def dtyStore (W : Writes) (memo : Option String) (t : String) : Option String :=
+  match W.dtyMemo with
+  | none => memo
+  | some _ => some t
 
 mutual
-def resolveW (W : Writes) (sc : List RV) : RV → RV × Except RErr RV
+def resolveW (W : Writes) (deep : Bool) (sc : List RV) : RV → RV × Except RErr RV
   | .dfr name args =>
-    match resolveWL W sc args with
+    match resolveWL W false sc args with
     | (args', .error e) => (.dfr name args', .error e)
     | (args', .ok da) =>
       -- with the write: `e.arguments = ResolveDeferred(c, e.arguments, scope).(*Array)` (only when there are arguments)
       (.dfr name (if W.dfrArgs && !args.isEmpty then da else args'), finish sc name da)
-  | .dty name memo =>
-    let r := dtyResolve W name memo
-    (.dty name r.1, .ok (.ty r.2))
+  | .dty name ps memo =>
+    match dtyHit W memo with
+    | some t => (.dty name ps memo, .ok (.ty t))      -- `if dt.resolved == nil { … }; return dt.resolved`
+    | none =>
+      if ps.isEmpty then (.dty name ps (dtyStore W memo (typeText name)), .ok (.ty (typeText name))) else
+      match resolveWL W true [] ps with
+      | (ps', .error e) => (.dty name ps' memo, .error e)
+      | (ps', .ok as) =>
+        match paramTypeText name as with
+        | .error e => (.dty name ps' memo, .error e)
+        | .ok t => (.dty name ps' (dtyStore W memo t), .ok (.ty t))
   | .arr xs =>
-    match resolveWL W sc xs with
+    match resolveWL W deep sc xs with
     | (xs', .error e) => (.arr xs', .error e)
     | (xs', .ok ys) => (.arr xs', .ok (.arr ys))
   | .hsh es =>
-    match resolveWH W sc es with
+    match resolveWH W deep sc es with
     | (es', .error e) => (.hsh es', .error e)
     | (es', .ok fs) => (.hsh es', .ok (.hsh fs))
+  | .ent k v =>
+    if deep then
+      match resolveW W deep sc k with
+      | (k', .error e) => (.ent k' v, .error e)
+      | (k', .ok k2) =>
+        match resolveW W deep sc v with
+        | (v', .error e) => (.ent k' v', .error e)
+        | (v', .ok v2) => (.ent k' v', .ok (.ent k2 v2))
+    else (.ent k v, .ok (.ent k v))
   | v => (v, .ok v)
-def resolveWL (W : Writes) (sc : List RV) : List RV → List RV × Except RErr (List RV)
+def resolveWL (W : Writes) (deep : Bool) (sc : List RV) : List RV → List RV × Except RErr (List RV)
   | [] => ([], .ok [])
   | x :: xs =>
-    match resolveW W sc x with
+    match resolveW W deep sc x with
     | (x', .error e) => (x' :: xs, .error e)
     | (x', .ok y) =>
-      match resolveWL W sc xs with
+      match resolveWL W deep sc xs with
       | (xs', .error e) => (x' :: xs', .error e)
       | (xs', .ok ys) => (x' :: xs', .ok (y :: ys))
-def resolveWH (W : Writes) (sc : List RV) : List RV → List RV × Except RErr (List RV)
+def resolveWH (W : Writes) (deep : Bool) (sc : List RV) : List RV → List RV × Except RErr (List RV)
   | [] => ([], .ok [])
   | .ent k v :: es =>
-    match resolveW W sc k with
+    match resolveW W deep sc k with
     | (k', .error e) => (.ent k' v :: es, .error e)
     | (k', .ok k2) =>
-      match resolveW W sc v with
+      match resolveW W deep sc v with
       | (v', .error e) => (.ent k' v' :: es, .error e)
       | (v', .ok v2) =>
-        match resolveWH W sc es with
+        match resolveWH W deep sc es with
         | (es', .error e) => (.ent k' v' :: es', .error e)
         | (es', .ok fs) => (.ent k' v' :: es', .ok (.ent k2 v2 :: fs))
   | x :: es =>
-    match resolveWH W sc es with
+    match resolveWH W deep sc es with
     | (es', .error e) => (x :: es', .error e)
     | (es', .ok fs) => (x :: es', .ok (x :: fs))
 end
@@ -301,9 +369,15 @@ end
 def resolveSeq (W : Writes) (v : RV) : List (List RV) → RV × List (Except RErr RV)
   | [] => (v, [])
   | sc :: scs =>
-    let r := resolveW W sc v
+    let r := resolveW W false sc v
     let rest := resolveSeq W r.1 scs
     (rest.1, r.2 :: rest.2)
+
+/-- what a DeferredType resolves to (its parameters taken without their memos) -/
+def dtyPure (name : String) (ps : List RV) : Option String :=
+  match resolve false [] (.dty name (eraseL ps) none) with
+  | .ok (.ty t) => some t
+  | _ => none
 
 mutual
 /-- every memo of a value is empty or holds what resolution would compute (true of every freshly built value) -/
@@ -312,7 +386,7 @@ def RV.memoOK : RV → Bool
   | .hsh es => memoOKL es
   | .ent k v => k.memoOK && v.memoOK
   | .dfr _ as => memoOKL as
-  | .dty n m => m == none || m == some (typeText n)
+  | .dty n ps m => memoOKL ps && (m == none || m == dtyPure n ps)
   | _ => true
 def memoOKL : List RV → Bool
   | [] => true
